@@ -625,7 +625,9 @@ func callSSA(i *interpreter, caller *frame, callpos token.Pos, fn *ssa.Function,
 			if i.mode&EnableTracing != 0 {
 				fmt.Fprintln(os.Stderr, "\t(external)")
 			}
-			return ext(fr, args)
+			if res, ok := tryExternal(ext, fr, args); ok {
+				return res
+			}
 		}
 		if fn.Blocks == nil {
 			if fn.Synthetic != "" && fn.Name() == "init" {
@@ -670,6 +672,21 @@ func callSSA(i *interpreter, caller *frame, callpos token.Pos, fn *ssa.Function,
 		fr.locals[i] = bad{}
 	}
 	return fr.result
+}
+
+// tryExternal runs an engine-implemented function; it may decline (fallthroughToSSA), in which
+// case the function's real body is interpreted.
+func tryExternal(ext externalFn, fr *frame, args []value) (res value, ok bool) {
+	defer func() {
+		if r := recover(); r != nil {
+			if _, is := r.(fallthroughToSSA); is {
+				ok = false
+				return
+			}
+			panic(r)
+		}
+	}()
+	return ext(fr, args), true
 }
 
 // insideStub reports whether the call chain is already inside stub (a stub may call the real
